@@ -113,23 +113,38 @@ def fam_routes(tier, rng):
 
 
 def fam_arith(tier, rng):
-    """arithmetic at and around the type boundaries, result stored into every type"""
+    """arithmetic at and around the type boundaries, result stored into every type; operand pairs are
+    stratified by where the exact result lies (inside INTEGER, inside LONG only, beyond LONG) so that every
+    (operator, operand types, target type) meets each class"""
     out = []
-    vals = [MINI, MINI + 1, -1, 0, 1, 2, MAXI - 1, MAXI, MINL, MINL + 1, MAXL - 1, MAXL, 46340, 46341, 65536]
-    ops = ["+", "-", "*"]
-    for op in ops:
-        for ta in ("I", "L"):
-            for tb in ("I", "L"):
+    vals = [MINI, MINI + 1, -1, 0, 1, 2, 200, 30000, MAXI - 1, MAXI, MINL, MINL + 1, MAXL - 1, MAXL, 46340, 46341, 65536]
+    ops = {"+": lambda x, y: x + y, "-": lambda x, y: x - y, "*": lambda x, y: x * y}
+
+    def klass(r):
+        return 0 if fits("I", r) else (1 if fits("L", r) else 2)
+    for op, f in ops.items():
+        for ta in NUMT:
+            for tb in NUMT:
+                whole = ta in ("I", "L") and tb in ("I", "L")
+                if tier == "quick" and not whole and rng.random() < 0.6:
+                    continue
                 ps = [(x, y) for x in vals for y in vals if fits(ta, x) and fits(tb, y)]
-                if tier == "quick":
-                    rng.shuffle(ps)
-                    ps = ps[:40]
+                if not whole:
+                    # stay inside the exactly representable domain of the floating types
+                    ps = [(x, y) for x, y in ps if abs(f(x, y)) <= (16777216 if "S" in (ta, tb) else MAXL)]
+                byk = {0: [], 1: [], 2: []}
                 for x, y in ps:
-                    for tt in (["L"] if tier == "quick" else ["I", "L", "D"]):
-                        b = B()
-                        main = [b.let(var("A", ta), num(x)), b.let(var("B", tb), num(y)),
-                                b.let(var("T", tt), bin_(op, var("A", ta), var("B", tb))), b.print(var("T", tt))]
-                        out.append({"fam": "arith:%s/%s%s>%s" % (op, ta, tb, tt), "prog": prog(main)})
+                    byk[klass(f(x, y))].append((x, y))
+                for tt in ["I", "L", "D"]:
+                    for k in (0, 1, 2):
+                        cand = byk[k]
+                        if tier == "quick":
+                            cand = rng.sample(cand, min(len(cand), 3 if whole else 2))
+                        for x, y in cand:
+                            b = B()
+                            main = [b.let(var("A", ta), num(x)), b.let(var("B", tb), num(y)),
+                                    b.let(var("T", tt), bin_(op, var("A", ta), var("B", tb))), b.print(var("T", tt))]
+                            out.append({"fam": "arith:%s/%s%s>%s" % (op, ta, tb, tt), "prog": prog(main)})
     # unary minus at the minima, division results stored into whole-number variables
     for t, v in [("I", MINI), ("L", MINL), ("I", MAXI), ("L", MAXL)]:
         b = B()
@@ -150,6 +165,20 @@ def fam_for(tier, rng):
         c = var("I", ct)
         main = [b.for_(c, num(lo), num(hi), num(st), [b.print(c)]), b.print(lit("$", "after"), c)]
         out.append({"fam": "for-edge:%s/%d" % (ct, st), "prog": prog(main)})
+    # every counter type x every static type of the bounds and of the step: the counter keeps its own type
+    for ct in NUMT:
+        for st_t in NUMT:
+            for bt in NUMT:
+                for stv in (1, 2, -1):
+                    if tier == "quick" and bt != st_t and stv != 1:
+                        continue
+                    b = B()
+                    c = var("I", ct)
+                    lo, hi = (1, 4) if stv > 0 else (4, 1)
+                    main = [b.let(var("ST", st_t), num(stv)), b.let(var("LO", bt), num(lo)), b.let(var("HI", bt), num(hi)),
+                            b.for_(c, var("LO", bt), var("HI", bt), var("ST", st_t), [b.print(c), b.let(var("W", ct), c)]),
+                            b.print(lit("$", "after"), c)]
+                    out.append({"fam": "for-types:%s/%s/%s/%d" % (ct, bt, st_t, stv), "prog": prog(main)})
     return out
 
 
@@ -187,7 +216,40 @@ def fam_round(tier, rng):
     return out
 
 
-FAMILIES = [fam_routes, fam_arith, fam_for, fam_round]
+def fam_narrow(tier, rng):
+    """DOUBLE values that are not SINGLE values, stored into SINGLE variables through every route (the stored
+    value must be the SINGLE nearest to it, never the DOUBLE itself); judged by the monitor only"""
+    out = []
+    for (w, f) in ((0, 1), (2, 3), (1000, 7)):
+        for route in ROUTES:
+            def src_fn(b, pre, w=w, f=f):
+                pre.append(b.let(var("SRC", "D"), flit("D", w, f)))
+                return var("SRC", "D")
+            p = route_prog(route, "S", src_fn)
+            if p is not None:
+                out.append({"fam": "narrow:%s/%d.%d" % (route, w, f), "prog": p})
+        # FOR with a SINGLE counter and a DOUBLE step / bounds
+        b = B()
+        c = var("I", "S")
+        main = [b.let(var("ST", "D"), flit("D", w, f)), b.for_(c, lit("I", 0), num(3 * (w + 1)), var("ST", "D"), [b.let(var("W", "S"), c)]),
+                b.print(lit("$", "after"))]
+        out.append({"fam": "narrow:for-step/%d.%d" % (w, f), "prog": prog(main)})
+        b = B()
+        main = [b.let(var("LO", "D"), flit("D", w, f)), b.for_(c, var("LO", "D"), bin_("+", var("LO", "D"), lit("I", 2)), None, [b.let(var("W", "S"), c)]),
+                b.print(lit("$", "after"))]
+        out.append({"fam": "narrow:for-init/%d.%d" % (w, f), "prog": prog(main)})
+        b = B()
+        out.append({"fam": "narrow:read/%d.%d" % (w, f), "prog": prog([b.data(flit("D", w, f)), b.read(var("T", "S")), b.print(lit("$", "ok"))])})
+        b = B()
+        fc = fcall("F", "S", [], 0)
+        st = b.let(var("T", "S"), fc)
+        fc["sid"] = st["id"]
+        out.append({"fam": "narrow:funcresult/%d.%d" % (w, f),
+                    "prog": prog([st, b.print(lit("$", "ok"))], [fun("F", "S", [], [b.let(var("Q", "D"), flit("D", w, f)), b.let(var("F", "S"), var("Q", "D"))])])})
+    return out
+
+
+FAMILIES = [fam_routes, fam_arith, fam_for, fam_round, fam_narrow]
 
 
 def cases(tier, seed):
